@@ -600,12 +600,12 @@ def hash_identity(prog: Program) -> RuleResult:
 # COST-GUARD
 
 
-def _cost_tainted_names(fn: ast.AST) -> Set[str]:
-    """Locals bound (transitively) from `costs[...]` / `*.costs[...]` reads or cost-named parameters."""
-    tainted: Set[str] = set()
-    for p in func_params(fn):
-        if p.endswith("_cost") or p == "costs":
-            tainted.add(p)
+def _cost_tainted_names(fn: ast.AST, seed: Set[str]) -> Set[str]:
+    """Locals bound (transitively) from reads of the cost vector; `seed` are the tainted parameters."""
+    tainted: Set[str] = set(seed)
+    for a in fn.args.posonlyargs + fn.args.args + fn.args.kwonlyargs:  # type: ignore[attr-defined]
+        if a.annotation is not None and "CostValues" in unparse(a.annotation):
+            tainted.add(a.arg)
     changed = True
     while changed:
         changed = False
@@ -624,11 +624,52 @@ def _mentions_cost(expr: ast.AST, tainted: Set[str]) -> bool:
     for n in ast.walk(expr):
         if isinstance(n, ast.Name) and n.id in tainted:
             return True
-        if isinstance(n, ast.Subscript) and (dotted(n.value) or "").split(".")[-1] == "costs":
-            return True
         if isinstance(n, ast.Attribute) and n.attr == "costs":
             return True
     return False
+
+
+def _cost_taint_table(prog: Program, modnames: Sequence[str]) -> Dict[Tuple[str, str], Set[str]]:
+    """(module, function) -> tainted names, propagated through the arguments of calls between the solver modules."""
+    seeds: Dict[Tuple[str, str], Set[str]] = {}
+    fns: Dict[Tuple[str, str], ast.AST] = {}
+    for modname in modnames:
+        for qual, fn in prog.defs(modname).items():
+            if isinstance(fn, FuncNode):
+                fns[(modname, qual)] = fn
+                seeds[(modname, qual)] = set()
+    table: Dict[Tuple[str, str], Set[str]] = {}
+    for _round in range(6):
+        changed = False
+        for key, fn in fns.items():
+            # closures see the tainted names of the enclosing function
+            outer = key[1].rsplit(".", 1)[0] if "." in key[1] else None
+            inherited = table.get((key[0], outer), set()) if outer else set()
+            table[key] = _cost_tainted_names(fn, seeds[key] | inherited)
+        for key, fn in fns.items():
+            mod = prog.module(key[0])
+            for call in walk_no_nested(fn):
+                if not isinstance(call, ast.Call):
+                    continue
+                callee = resolve_callee(prog, mod, call.func)
+                if callee is None or not isinstance(callee[1], FuncNode):
+                    continue
+                ckey = (_modkey(callee[0]), callee[1].name)
+                ckey = next((k for k in fns if fns[k] is callee[1]), None)
+                if ckey is None:
+                    continue
+                params = func_params(callee[1])
+                for i, arg in enumerate(call.args):
+                    if i < len(params) and _mentions_cost(arg, table[key]) and params[i] not in seeds[ckey]:
+                        seeds[ckey].add(params[i])
+                        changed = True
+                for kw in call.keywords:
+                    if kw.arg and _mentions_cost(kw.value, table[key]) and kw.arg not in seeds[ckey]:
+                        seeds[ckey].add(kw.arg)
+                        changed = True
+        if not changed:
+            break
+    return table
 
 
 def cost_guard(prog: Program) -> RuleResult:
@@ -640,12 +681,16 @@ def cost_guard(prog: Program) -> RuleResult:
         "about DTL scenarios are where optimality is lost)",
     )
     n = 0
-    for modname in ("compute.reconciliation", "compute.super_reconciliation", "compute.unordered_super_reconciliation", "compute.exhaustive"):
+    solver_mods = ("compute.reconciliation", "compute.super_reconciliation", "compute.unordered_super_reconciliation", "compute.exhaustive")
+    table = _cost_taint_table(prog, solver_mods)
+    if not any(table.values()):
+        raise AnalysisError("COST-GUARD: no read of the cost vector found in the solvers")
+    for modname in solver_mods:
         mod = prog.module(modname)
         for qual, fn in prog.defs(modname).items():
             if not isinstance(fn, FuncNode):
                 continue
-            tainted = _cost_tainted_names(fn)
+            tainted = table[(modname, qual)]
             construct = f"{modname}:{qual}/cost-in-control"
             bad = None
             for node in walk_no_nested(fn):
@@ -1303,7 +1348,224 @@ def loss_walk(prog: Program) -> RuleResult:
     return res
 
 
+# ---------------------------------------------------------------------------
+# CLI-FLOW-TABLE
+
+CLI = "cli.reconcile"
+
+
+def cli_flow_table(prog: Program) -> RuleResult:
+    res = RuleResult(
+        "CLI-FLOW-TABLE",
+        "decision table of the reconcile command, extracted by following the decided arm of every test for each "
+        "case (kind of algorithm: one parameter / input + policy / super-input + policy; kind of input: plain / "
+        "with syntenies; shape of the algorithm's answer: None / one output / empty / several): a "
+        "super-reconciliation algorithm on an input without syntenies is never called and yields None; otherwise "
+        "the algorithm is called once with the input (and the requested policy exactly when it takes one); the "
+        "answer is normalised to a list, an empty one yields None, and the printed minimum is the cost of a "
+        "returned solution; `reconcile` exits with status 1 exactly when there is nothing to write and otherwise "
+        "writes every solution as one JSON document followed by a newline",
+    )
+    mod = prog.module(CLI)
+    fn = prog.func(CLI, "call_algorithm")
+    p_args, p_input = func_params(fn)[:2]
+
+    def mentions(expr: ast.AST, *words: str) -> bool:
+        text = unparse(expr)
+        return all(w in text for w in words)
+
+    def first_param_annotation(expr: ast.AST, index: int) -> bool:
+        return (
+            isinstance(expr, ast.Attribute) and expr.attr == "annotation" and isinstance(expr.value, ast.Subscript)
+            and isinstance(expr.value.slice, ast.Constant) and expr.value.slice.value == index
+        )
+
+    def make_oracle(algo: str, inp: str, outshape: str):
+        nparams = 1 if algo == "plain1" else 2
+        algo_input = "super" if algo == "super2" else "plain"
+
+        def oracle(expr: ast.AST, env) -> Optional[bool]:
+            if isinstance(expr, ast.Compare) and len(expr.ops) == 1:
+                left, right, op = expr.left, expr.comparators[0], expr.ops[0]
+                eq = isinstance(op, (ast.Eq, ast.Is))
+                if isinstance(op, (ast.Eq, ast.NotEq, ast.Is, ast.IsNot)):
+                    for a, b in ((left, right), (right, left)):
+                        if first_param_annotation(a, 0):
+                            if isinstance(b, ast.Call) and dotted(b.func) == "type" and b.args and dotted(b.args[0]) == p_input:
+                                return (algo_input == inp) == eq
+                            name = dotted(b) or ""
+                            if name.endswith("SuperReconciliationInput"):
+                                return (algo_input == "super") == eq
+                            if name.endswith("ReconciliationInput"):
+                                return (algo_input == "plain") == eq
+                        if first_param_annotation(a, 1) and (dotted(b) or "").endswith("RetentionPolicy"):
+                            if nparams < 2:
+                                raise AnalysisError("call_algorithm: the second parameter is inspected although the algorithm has one")
+                            return eq
+                        if isinstance(a, ast.Call) and dotted(a.func) == "len" and isinstance(b, ast.Constant) and isinstance(b.value, int) and mentions(a, "parameters"):
+                            return (nparams == b.value) == eq
+                        if isinstance(b, ast.Constant) and b.value is None and isinstance(a, ast.Call) and mentions(a, "algorithms"):
+                            return (outshape == "none") == eq
+            if isinstance(expr, ast.Call) and dotted(expr.func) == "isinstance" and len(expr.args) == 2 and mentions(expr.args[0], "algorithms"):
+                cls = dotted(expr.args[1]) or ""
+                if cls.endswith("ReconciliationOutput"):
+                    return outshape == "single"
+            # truthiness of the normalised list
+            if isinstance(expr, ast.List):
+                return bool(expr.elts)
+            if isinstance(expr, ast.Call) and dotted(expr.func) == "list" and expr.args and mentions(expr.args[0], "algorithms"):
+                return outshape == "many"
+            return None
+
+        return oracle
+
+    def on_loop(st, out):
+        raise AnalysisError("call_algorithm: loop not expected")
+
+    for algo in ("plain1", "plain2", "super2"):
+        for inp in ("plain", "super"):
+            for outshape in ("none", "single", "empty", "many"):
+                if algo == "plain1" and outshape in ("empty", "many"):
+                    continue  # the one-parameter algorithm answers one output or None
+                if algo != "plain1" and outshape in ("single",):
+                    continue
+                construct = f"{CLI}:call_algorithm/[{algo} on {inp} input, answer {outshape}]"
+                out = run_cases(fn.body, make_oracle(algo, inp, outshape), where=construct)
+                calls = [v for v in [out.env.get(k) for k in out.env] if isinstance(v, ast.Call) and mentions(v.func, "algorithms")]
+                # calls of the algorithm: the value bound by `output = algo(...)`
+                algo_calls = []
+                for name_, val in out.env.items():
+                    for c in ast.walk(val):
+                        if isinstance(c, ast.Call) and isinstance(c.func, ast.Subscript) and mentions(c.func, "algorithms") and c not in algo_calls:
+                            algo_calls.append(c)
+                uniq = {unparse(c) for c in algo_calls}
+                ret = out.exit[1] if out.exit and out.exit[0] == "return" else None
+                ret_none = out.exit is None or ret is None or (isinstance(ret, ast.Constant) and ret.value is None)
+                problems = []
+                if algo == "super2" and inp == "plain":
+                    if uniq:
+                        problems.append("the super-reconciliation algorithm is called on an input without syntenies")
+                    if not ret_none:
+                        problems.append(f"the function returns `{short(ret)}` instead of None")
+                else:
+                    if len(uniq) != 1:
+                        problems.append(f"the algorithm is called {len(uniq)} time(s)")
+                    else:
+                        call = algo_calls[0]
+                        want_n = 1 if algo == "plain1" else 2
+                        if not (call.args and dotted(call.args[0]) == p_input):
+                            problems.append(f"the algorithm does not receive the input as first argument (`{short(call, 80)}`)")
+                        if len(call.args) + len(call.keywords) != want_n:
+                            problems.append(f"the algorithm is called with {len(call.args) + len(call.keywords)} argument(s), it takes {want_n}")
+                        elif want_n == 2:
+                            pol = call.args[1] if len(call.args) > 1 else call.keywords[0].value
+                            if not (mentions(pol, "RetentionPolicy") and mentions(pol, f"{p_args}.solutions")):
+                                problems.append(f"the policy argument `{short(pol)}` is not the requested `--solutions` policy")
+                    expect_none = outshape in ("none", "empty")
+                    if expect_none and not ret_none:
+                        problems.append(f"nothing was found but the function returns `{short(ret)}`")
+                    if not expect_none:
+                        if ret_none:
+                            problems.append("solutions were found but the function returns None")
+                        else:
+                            ok_list = (
+                                (outshape == "single" and isinstance(ret, ast.List) and len(ret.elts) == 1 and mentions(ret.elts[0], "algorithms"))
+                                or (outshape == "many" and isinstance(ret, ast.Call) and dotted(ret.func) == "list" and ret.args and mentions(ret.args[0], "algorithms"))
+                            )
+                            if not ok_list:
+                                problems.append(f"the function returns `{short(ret, 80)}`, not the list of the solutions found")
+                            prints = [e for k, e in out.events if k == "call" and dotted(e.func) == "print" and any(isinstance(x, ast.Call) and isinstance(x.func, ast.Attribute) and x.func.attr == "cost" for a in e.args for x in ast.walk(a))]
+                            if not prints:
+                                problems.append("the minimum cost is not printed")
+                            else:
+                                costcall = next(x for a in prints[0].args for x in ast.walk(a) if isinstance(x, ast.Call) and isinstance(x.func, ast.Attribute) and x.func.attr == "cost")
+                                src = costcall.func.value
+                                if not (isinstance(src, ast.Subscript) and isinstance(src.slice, ast.Constant) and isinstance(src.slice.value, int) and mentions(src.value, "algorithms")):
+                                    problems.append(f"the printed cost `{short(costcall, 80)}` is not the cost of a returned solution")
+                                to_err = any(kw.arg == "file" and mentions(kw.value, "stderr") for kw in prints[0].keywords)
+                                if not to_err:
+                                    problems.append("the minimum cost is printed on the output stream, inside the JSON documents")
+                if problems:
+                    res.fail(construct, "; ".join(problems), mod, fn)
+                else:
+                    res.ok(construct, "as documented")
+
+    # reconcile: exit status
+    rfn = prog.func(CLI, "reconcile")
+    for nothing in (True, False):
+        construct = f"{CLI}:reconcile/[{'nothing to write' if nothing else 'solutions found'}]"
+
+        def oracle(expr: ast.AST, env, nothing=nothing) -> Optional[bool]:
+            if isinstance(expr, ast.Compare) and len(expr.ops) == 1 and isinstance(expr.ops[0], (ast.Is, ast.IsNot, ast.Eq, ast.NotEq)):
+                left, right = expr.left, expr.comparators[0]
+                if isinstance(right, ast.Constant) and right.value is None and isinstance(left, ast.Call) and (dotted(left.func) or "").endswith("call_algorithm"):
+                    return nothing == isinstance(expr.ops[0], (ast.Is, ast.Eq))
+            if isinstance(expr, ast.Call) and (dotted(expr.func) or "").endswith("call_algorithm"):
+                return not nothing
+            return None
+
+        out = run_cases(rfn.body, oracle, where=construct)
+        ret = out.exit[1] if out.exit and out.exit[0] == "return" else None
+        dumps = [e for k, e in out.events if k == "call" and (dotted(e.func) or "").endswith("dump_results")]
+        if isinstance(ret, ast.Call) and (dotted(ret.func) or "").endswith("dump_results"):
+            dumps.append(ret)
+        if nothing:
+            if dumps:
+                res.fail(construct, "results are written although there is none", mod, rfn)
+            elif not (isinstance(ret, ast.Constant) and ret.value == 1 and not isinstance(ret.value, bool)):
+                res.fail(construct, f"the exit status is `{short(ret)}`, the documented status is 1", mod, rfn)
+            else:
+                res.ok(construct, "status 1, nothing written")
+        else:
+            if len(dumps) != 1:
+                res.fail(construct, f"the solutions are written {len(dumps)} time(s)", mod, rfn)
+            elif isinstance(ret, ast.Constant) and ret.value not in (None, 0):
+                res.fail(construct, f"the exit status is {ret.value} although solutions were written", mod, rfn)
+            else:
+                res.ok(construct, "solutions written, status 0")
+
+    # dump_results: one document and one newline per solution
+    dfn = prog.func(CLI, "dump_results")
+    d_args, d_results = func_params(dfn)[:2]
+    construct = f"{CLI}:dump_results/one-document-per-solution"
+    loops = [st for st in dfn.body if isinstance(st, ast.For)]
+    if len(loops) != 1 or dotted(loops[0].iter) != d_results or not isinstance(loops[0].target, ast.Name):
+        res.fail(construct, f"the writer does not loop over every solution of `{d_results}`", mod, dfn)
+    else:
+        loop = loops[0]
+        var = loop.target.id
+        body_calls = [st.value for st in loop.body if isinstance(st, ast.Expr) and isinstance(st.value, ast.Call)]
+        dumps = [c for c in body_calls if (dotted(c.func) or "").endswith("dump")]
+        problems = []
+        if len(dumps) != 1:
+            problems.append(f"{len(dumps)} JSON document(s) per solution")
+        else:
+            c = dumps[0]
+            doc = c.args[0] if c.args else None
+            fp = c.args[1] if len(c.args) > 1 else kwarg(c, "fp")
+            if not (isinstance(doc, ast.Call) and isinstance(doc.func, ast.Attribute) and doc.func.attr == "to_dict" and dotted(doc.func.value) == var):
+                problems.append(f"the document is `{short(doc)}`, not the dictionary form of the solution")
+            if dotted(fp) != f"{d_args}.output":
+                problems.append(f"the document goes to `{short(fp)}`, not to the output file")
+            after = body_calls[body_calls.index(c) + 1:]
+            newline = [
+                x for x in after
+                if (dotted(x.func) == "print" and any(kw.arg == "file" and dotted(kw.value) == f"{d_args}.output" for kw in x.keywords))
+                or (isinstance(x.func, ast.Attribute) and x.func.attr == "write" and dotted(x.func.value) == f"{d_args}.output")
+            ]
+            if not newline:
+                problems.append("no newline separates the documents (the output is no longer one JSON object per line)")
+            if any(guards(dfn, x) for x in [c] + newline if [g for g in guards(dfn, x)]):
+                problems.append("a solution is written only under a condition")
+        if problems:
+            res.fail(construct, "; ".join(problems), mod, loop)
+        else:
+            res.ok(construct, "json.dump(solution.to_dict(), output) + newline for every solution")
+    return res
+
+
 RULES = {
+    "CLI-FLOW-TABLE": cli_flow_table,
     "LOSS-WALK": loss_walk,
     "SET-ALGEBRA-ARGS": set_algebra_args,
     "NAME-AS-KEY": name_as_key,
